@@ -51,7 +51,8 @@ def pad4 (n : Nat) : String :=
   let s := toString n
   String.ofList (List.replicate (4 - s.length) '0') ++ s
 
-/-- chrono's NaiveDate serialisation for years 0..9999 -/
+/-- chrono's NaiveDate serialisation for years 0..9999 (chrono writes a sign for other years:
+    `+10000-01-01`, `-0001-03-01`; not modelled) -/
 def isoDate (rd : Int) : String :=
   let d := fromRD rd
   pad4 d.y.toNat ++ "-" ++ pad2 d.m.toNat ++ "-" ++ pad2 d.d.toNat
